@@ -534,8 +534,31 @@ class Run:
         if len(res) != 1:
             return (False, 'L%d' % __import__('sys')._getframe().f_lineno)
         r = res[0]
-        if r.status != "parked" or r.ov or r.ack != a.ack or r.pending is not None:
-            return (False, 'writes %r ack %r->%r pending %r' % (list(r.ov)[:4], a.ack, r.ack, r.pending is not None))
+        if r.status != "parked" or r.ack != a.ack or r.pending is not None:
+            return (False, 'ack %r->%r pending %r' % (a.ack, r.ack, r.pending is not None))
+        if r.ov:
+            # writes that provably leave every object as it was (guarded updates whose guard is false on this path,
+            # re-stored merged values) do not count: decided by the solver under the alternative's guard
+            if r.nalloc != a.nalloc:
+                return (False, 'allocates %r' % ([(k, v) for k, v in r.nalloc.items() if a.nalloc.get(k) != v][:3],))
+            diff = False
+            for obj, v in r.ov.items():
+                cur = m.heap.get(obj, I._MISSING)
+                if cur is I._MISSING:
+                    return (False, 'writes new object %r' % (obj,))
+                if same(cur, v):
+                    continue
+                try:
+                    e = I.eq_vals(m, cur, v)
+                except Exception:
+                    return (False, 'writes %r (not comparable)' % (obj,))
+                if e is True:
+                    continue
+                if e is False:
+                    return (False, 'writes %r' % (obj,))
+                diff = OR(diff, NOT(e))
+            if diff is not False and m.feasible(AND(r.guard, diff)):
+                return (False, 'writes %r' % (list(r.ov)[:4],))
         now = (len(m.log), len(m.violations), len(m.pending_spawns), len(m.reached), len(m.asserted), len(m.constraints) - m.stats.get("lemmas", 0))
         if mark != now:
             return (False, 'mark %r -> %r %s' % (mark, now, str(m.constraints[-1])[:300] if now[5] != mark[5] else ''))
